@@ -45,3 +45,19 @@ pub fn auth_param(b: &[u8]) -> (bool, String) {
     let p = passkey_types::u2f::AuthenticationParameter::from(b[0]);
     (false, format!("returned {p:?}"))
 }
+
+/// C17: raw authentication response = presence byte || big-endian counter || signature || 0x9000.
+/// arg bytes: flags(1) counter(4, big-endian) signature(rest)
+pub fn auth_response_layout(b: &[u8]) -> (bool, String) {
+    use passkey_types::{ctap2::Flags, u2f::AuthenticationResponse};
+    if b.len() < 5 { return (false, "need flags, counter".into()); }
+    let Some(flags) = Flags::from_bits(b[0]) else { return (false, format!("{:#04x} is not a flag byte", b[0])); };
+    let counter = u32::from_be_bytes([b[1], b[2], b[3], b[4]]);
+    let sig = b[5..].to_vec();
+    let r = AuthenticationResponse { user_presence: flags, counter, signature: sig.clone() }.encode();
+    let mut want = vec![b[0]];
+    want.extend_from_slice(&counter.to_be_bytes());
+    want.extend_from_slice(&sig);
+    want.extend_from_slice(&[0x90, 0x00]);
+    (r != want, format!("flags {:#04x} counter {counter}: encoded {:02x?}, layout says {:02x?}", b[0], r, want))
+}
